@@ -61,12 +61,34 @@ def main(argv):
         violations.append(rec)
     os.makedirs(os.path.join(OUT, 'replays', pid), exist_ok=True)
     lines = []
+    # native differential replay (bounded): the real builder, generated vs generic class of the same declaration,
+    # seeded random inputs; one search per distinct declaration
+    import subprocess
+    from pyvc import extract
+    replayed = {}
+
+    def native(v):
+        key = json.dumps([v['declaration'], v['options']], sort_keys=True)
+        if key not in replayed:
+            try:
+                env = dict(os.environ, PYTHONPATH=extract.REPO, PYTHONDONTWRITEBYTECODE='1')
+                p = subprocess.run(['/venv/bin/python', os.path.join(ROOT, 'pyvc', 'tv_replay.py'),
+                                    json.dumps(dict(body=v['declaration'], options=v['options'])), str(seed), '600'],
+                                   capture_output=True, text=True, timeout=300, env=env)
+                replayed[key] = json.loads(p.stdout.strip().splitlines()[-1])
+            except Exception as e:
+                replayed[key] = dict(reproduced=False, note='replay machinery error: %r' % (e,))
+        return replayed[key]
     for i, v in enumerate(violations[:50]):
         rp = os.path.join(OUT, 'replays', pid, 'violation_%d.json' % i)
-        v['replay'] = dict(reproduced=False, note='generated and generic code disagree on some input for this declaration '
-                           '(pair of paths not proved equivalent); declaration and options are in this file')
+        rep = native(v) if len(replayed) < 12 or json.dumps([v['declaration'], v['options']], sort_keys=True) in replayed else dict(reproduced=False)
+        if not rep.get('reproduced'):
+            rep = dict(rep, reproduced=False, note='generated and generic code are not proved equivalent for this declaration (pair of paths); '
+                       'the seeded native search found no input on which the two classes disagree; declaration and options are in this file')
+        v['replay'] = rep
         json.dump(dict(property=pid, **v), open(rp, 'w'), indent=1)
-        lines.append('VIOLATION property=%s replay=%s obligation=%s no-failing-input-found' % (pid, rp, v['obligation'].replace(' ', '_')))
+        tail = '' if rep.get('reproduced') else ' no-failing-input-found'
+        lines.append('VIOLATION property=%s replay=%s obligation=%s%s' % (pid, rp, v['obligation'].replace(' ', '_'), tail))
     samples = [dict(declaration=r['body'], options=r['options'], direction=r['direction'], note=r.get('note'),
                     pairs_to_solver=len(r.get('items', []))) for r in results[:6]]
     ev = dict(property_id=pid, tier=tier, seed=seed, level='translation_validation',
